@@ -72,8 +72,15 @@ Definition check_output_limits (cfg : config) (o : output) : result unit :=
   let* m := min_ada_for_output (c_cpb cfg) o in
   if o_coin o <? m then Err else Ok tt.
 
+(* Value::has_empty_entries on this file's abstract multiasset (policy = its (name length, quantity) pairs) *)
+Definition ma_has_empty_entries (ma : multiasset) : bool :=
+  existsb (fun p : policy => match p with [] => true | _ => existsb (fun a : asset => snd a =? 0) p end) ma.
+
+(* add_output first refuses a value holding a zero quantity or an asset-less policy (as Num/ValueNorm.v; since the /repo fix
+   "the builder drops zero quantities and asset-less policies of the amounts it is given") *)
 Definition add_output (cfg : config) (outs : list output) (o : output) : result (list output) :=
-  let* _ := check_output_limits cfg o in Ok (outs ++ [o]).
+  if ma_has_empty_entries (o_ma o) then Err
+  else let* _ := check_output_limits cfg o in Ok (outs ++ [o]).
 
 (* a sequence of requested outputs *)
 Fixpoint add_outputs (cfg : config) (outs : list output) (req : list output) : result (list output) :=
